@@ -129,7 +129,7 @@ func c20Run(c *caseCtx) (res caseResult) {
 	// in a burst every handshake comes from a peer of its own: the answer goes to the peer that asked
 	var peers []*probeActor
 	var peerPIDs []*actor.PID
-	for i := 0; i < 5; i++ {
+	for i := 0; i < 8; i++ {
 		pa := &probeActor{}
 		peers = append(peers, pa)
 		peerPIDs = append(peerPIDs, h.Spawn(func() actor.Receiver { return pa }, "peer", actor.WithID(fmt.Sprint(i))))
@@ -150,6 +150,30 @@ func c20Run(c *caseCtx) (res caseResult) {
 		}
 		universe = append(universe, &cluster.Member{ID: fmt.Sprintf("u%d", i), Host: addr(2 + i), Region: "r", Kinds: []string{fmt.Sprintf("k%d", i%2)}})
 		altHost[fmt.Sprintf("u%d", i)] = addr(9 + i) // the same member may come back under another address
+	}
+	// two members behind one address (clusters that share an engine, or a stale list naming a node's previous
+	// incarnation): different ids, different members
+	universe = append(universe, &cluster.Member{ID: "t0", Host: addr(2), Region: "r", Kinds: []string{"k0"}})
+	altHost["t0"] = addr(2)
+	hostShared := func(id string) bool {
+		cur := model[id]
+		if cur == nil {
+			return false
+		}
+		for oid, m := range model {
+			if oid != id && m.Host == cur.Host {
+				return true
+			}
+		}
+		return false
+	}
+	hostInUse := func(h string) bool {
+		for _, m := range model {
+			if m.Host == h {
+				return true
+			}
+		}
+		return false
 	}
 	// a member that is currently absent joins under either of its addresses; one that is present keeps its address
 	incarnate := func(m *cluster.Member) *cluster.Member {
@@ -334,7 +358,7 @@ func c20Run(c *caseCtx) (res caseResult) {
 		case x < 8 && x != 8: // unreachable report for a member
 			var cand []string
 			for id := range model {
-				if id != "node" {
+				if id != "node" && !hostShared(id) { // (which of two members behind one address goes is not settled by the statement)
 					cand = append(cand, id)
 				}
 			}
@@ -411,7 +435,7 @@ func c20Run(c *caseCtx) (res caseResult) {
 		case x == 8: // the same member fails, comes back under the same address, and fails again - nothing else in between
 			var cand []string
 			for id := range model {
-				if id != "node" {
+				if id != "node" && !hostShared(id) {
 					cand = append(cand, id)
 				}
 			}
@@ -469,6 +493,9 @@ func c20Run(c *caseCtx) (res caseResult) {
 				continue
 			}
 			m := absent[r.Intn(len(absent))]
+			if hostInUse(m.Host) {
+				continue
+			}
 			pk := c20Park{entered: make(chan struct{}), release: make(chan struct{})}
 			e.Send(providerPID, pk)
 			select {
@@ -508,7 +535,7 @@ func c20Run(c *caseCtx) (res caseResult) {
 				var cands []string
 				for _, m := range universe {
 					for _, hst := range []string{m.Host, altHost[m.ID]} {
-						if cur := model[m.ID]; cur == nil || cur.Host != hst {
+						if !hostInUse(hst) {
 							cands = append(cands, hst)
 						}
 					}
